@@ -11,6 +11,7 @@ import boot  # noqa: F401
 import torch
 
 from core import Ctx, Violation, err_name, ints, line
+from props import c13_hist as H
 
 PROP = "C13"
 MANIFEST = {
@@ -259,6 +260,29 @@ def correspondence(ctx: Ctx):
         c["nontrivial"] = False
         yield c
 
+    # ---- several live iterators over one BatchVolumeSampler object: abandoned passes, interleavings, DataLoader
+    def nbound(layout, bs):
+        return sum(-(-n // max(bs, 1)) for n in layout)
+
+    def bvsm_case(layout, world, rank, limit, bs, mode, scenario=None):
+        ops, kinds, scen = H.gen_ops(rng, nbound(layout, bs), scenario)
+
+        def impl():
+            _ds, _s, _b, iterable = H.build(layout, world, rank, limit, bs, mode)
+            return H.fmt(H.run_ops(iterable, ops, kinds))
+        nvol = len(layout) if limit == 0 else len(layout[:limit])
+        return {"line": line("bvsm", layout, [world, rank, limit, bs, mode], H.flat(ops)), "impl": _catch(impl),
+                "nontrivial": nvol >= 2, "bucket": f"bvsm/{H.MODES[mode]}/{scen}"}
+
+    for scen in ("abandon", "peek", "zip", "zip-lag", "random", "complete"):      # fixed corner layouts, every scenario
+        for layout, world, rank, bs in (([3, 5, 2, 4], 1, 0, 2), ([1, 1, 1, 1], 2, 1, 1), ([2, 9, 1], 1, 0, 10),
+                                        ([4, 4], 3, 2, 3), ([7], 1, 0, 3), ([1, 6, 2], 2, 0, 4)):
+            yield bvsm_case(layout, world, rank, 0, bs, rng.choice([0, 0, 1, 2]), scen)
+    for _ in range(ctx.budget(110, 1200)):
+        layout = _rand_layout(rng)
+        world, rank, limit, bs = rand_cfg(layout)
+        yield bvsm_case(layout, world, rank, limit, bs, rng.choice([0, 0, 0, 1, 2]))
+
     # ---- BatchVolumeSampler over an arbitrary inner sampler (gaps, empty volumes, no volumes)
     class RawSampler(Sampler):
         def __init__(self, indices, vols):
@@ -295,6 +319,13 @@ def correspondence(ctx: Ctx):
         yield {"line": line("bvsraw", indices, [a for a, _ in vols], [b for _, b in vols], [bs], ops), "impl": _catch(impl),
                "nontrivial": nv >= 2, "bucket": "bvsraw/" + ("no-volumes" if nv == 0 else "empty-volume" if empty_vol else
                                                             "consistent" if mode < 0.6 else "inconsistent")}
+        if rng.random() < 0.5:
+            mops, kinds, scen = H.gen_ops(rng, len(indices) + 1)
+
+            def implm(indices=indices, vols=vols, bs=bs, mops=mops, kinds=kinds):
+                return H.fmt(H.run_ops(BatchVolumeSampler(RawSampler(indices, vols), bs), mops, kinds))
+            yield {"line": line("bvsmraw", indices, [a for a, _ in vols], [b for _, b in vols], [bs], H.flat(mops)),
+                   "impl": _catch(implm), "nontrivial": nv >= 2, "bucket": "bvsmraw/" + scen}
 
     # ---- ConcatDatasetBatchSampler: offsets and batching, drawn member recorded
     for _ in range(ctx.budget(40, 400)):
@@ -495,6 +526,28 @@ def oracle(ctx: Ctx, deep: bool = False):
             seen.add(key)
             yield Violation(key, what, {"op": "config", "layout": layout, "world": world, "bs": bs, "limit": limit,
                                         "key": key, "observed": obs})
+    # (1a) histories with several live iterators over one sampler object (abandoned passes, peeks, zip(bs, bs), dropped
+    # DataLoader iterators): every iterator ever created yields the single-volume consecutive batches, len() of them
+    for _ in range(900 if deep else ctx.budget(150, 1500)):
+        layout = _rand_layout(rng)
+        world = rng.choice([1, 1, 1, 2, 2, 3, 4, 8])
+        rank = rng.randrange(world)
+        bs = rng.randint(1, 10)
+        limit = rng.choice([0, 0, 0, rng.randint(1, 6)])
+        mode = rng.choice([0, 0, 1, 2])
+        ops, kinds, scen = H.gen_ops(rng, sum(-(-n // bs) for n in layout))
+        nvol = len(layout) if not limit else len(layout[:limit])
+        ctx.count(("hist", tuple(layout), world, rank, bs, limit, mode, tuple(ops)), nvol >= 2,
+                  bucket=f"oracle/history/{H.MODES[mode]}/{scen}")
+        seen = set()
+        for key, what, obs in H.check_history(layout, world, rank, limit, bs, mode, ops, kinds):
+            if key in seen:
+                continue
+            seen.add(key)
+            yield Violation(key, f"{what} [{scen}, {H.MODES[mode]}]",
+                            {"op": "history", "layout": layout, "world": world, "rank": rank, "bs": bs, "limit": limit,
+                             "mode": mode, "ops": [list(o) for o in ops], "abandon_kinds": kinds, "scenario": scen,
+                             "key": key, "observed": obs})
     # (1b) OUTSIDE the quantifier (volumes have 1..9 slices): a zero-slice volume in the middle, through the real samplers.
     # Recorded as a note (key empty-volume-after-filter), never a violation; C14's evidence has the H5SliceData run.
     try:
@@ -586,6 +639,10 @@ def replay(rep: dict) -> bool:
     try:
         if op == "config":
             return any(key == rep.get("key") for key, _, _ in _check_config(rep["layout"], rep["world"], rep["bs"], rep["limit"]))
+        if op == "history":
+            return any(key == rep.get("key") for key, _, _ in H.check_history(
+                rep["layout"], rep["world"], rep["rank"], rep["limit"], rep["bs"], rep["mode"],
+                [tuple(o) for o in rep["ops"]], rep.get("abandon_kinds", [])))
         if op == "chunks":
             from direct.utils import chunks
             cs = list(chunks(list(range(rep["n"])), rep["k"]))
